@@ -242,3 +242,29 @@ pub fn cmd_replay(args: &[String], lookup: Lookup) -> i32 {
         }
     }
 }
+
+
+/// `<engine> dump <scenario> <property> --seed S --index I [--tier thorough] --out <file>`:
+/// write the replay file (with the decision seed) of run I of a batch, without executing it.
+pub fn cmd_dump(engine: &str, args: &[String], lookup: Lookup) -> i32 {
+    let (Some(scenario), Some(property)) = (args.first(), args.get(1)) else {
+        eprintln!("dump: need <scenario> <property>");
+        return 2;
+    };
+    let Some(scn) = lookup(scenario, property) else {
+        eprintln!("HARNESS-ERROR unknown scenario/property {scenario}/{property}");
+        return 2;
+    };
+    let seed: u64 = arg_val(args, "--seed").and_then(|s| s.parse().ok()).unwrap_or(20260926);
+    let index: u64 = arg_val(args, "--index").and_then(|s| s.parse().ok()).unwrap_or(0);
+    let thorough = arg_val(args, "--tier").as_deref() == Some("thorough");
+    let out = PathBuf::from(arg_val(args, "--out").unwrap_or_else(|| "dump.json".into()));
+    let rf = scn.replay_file_for_run(engine, seed, index, thorough, Violation::new("none", "none", "dumped, not executed".into()));
+    match crate::report::write_json_atomic(&out, &serde_json::to_value(&rf).unwrap()) {
+        Ok(()) => 0,
+        Err(e) => {
+            eprintln!("HARNESS-ERROR {e}");
+            2
+        }
+    }
+}
